@@ -1,8 +1,9 @@
 (* C05, part 4: the guards of the remaining components equal their documented preconditions for ALL arguments
    (ModelMore.v against SpecMore.v): static_set(first, last), strncpy / wcscpy / wcsncpy, the linalg
    extents-compatibility guards (blas1 add / copy / swap_elements, blas2 matrix_vector_product),
-   layout_stride::mapping::stride, the bitset string constructor, to_string<Capacity>. *)
-From Tetl Require Import Lib.Base C05.Model C05.Spec C05.ModelMore C05.SpecMore C05.ProofsMore C05.ProofsToString.
+   layout_stride::mapping::stride, the bitset string constructor, to_string<Capacity>, format_escaped_sequences,
+   array front/back, optional / expected operator->. *)
+From Tetl Require Import Lib.Base C05.Model C05.Spec C05.ModelMore C05.SpecMore C05.ProofsMore C05.ProofsToString C05.ProofsFormat.
 Local Open Scope Z_scope.
 
 (* static_set(first, last), random access iterators: d = last - first is ANY ptrdiff_t value; the conversion of d to
@@ -46,6 +47,14 @@ Theorem C05_to_string_guard_exact : forall cap v, 0 <= cap < two64 - 1 -> - 2 ^ 
 Proof. exact to_string_guard_exact. Qed.
 Print Assumptions C05_to_string_guard_exact.
 
+(* format_escaped_sequences(text) (what format_to runs on every slice of text between arguments): for EVERY text the scan
+   terminates within its fuel and reaches TETL_PRECONDITION(false) exactly when the text is not of the form
+   plain "{{" inner "}}" ... tail  (plain without '{', inner without '}', the tail's first '{' not followed by '{') *)
+Theorem C05_format_escaped_guard_exact : forall text,
+  exists b, format_escaped_guard text = Some b /\ (b = true <-> fmt_ok text).
+Proof. exact format_escaped_guard_exact. Qed.
+Print Assumptions C05_format_escaped_guard_exact.
+
 (* array<T, N>::front() / back() for every N (only N = 0 can violate); operator[] of array<T, 0> in SAFE mode *)
 Theorem C05_array_front_back_guard_exact : forall n, 0 <= n ->
   array_front n = pre_nonempty n /\ array_back n = pre_nonempty n /\ array0_index true = pre_index 0 0.
@@ -61,6 +70,24 @@ Print Assumptions C05_optional_arrow_total.
 Theorem C05_expected_arrow_refuted : exists has_value, exp_arrow has_value <> pre_exp_arrow has_value.
 Proof. exists false. discriminate. Qed.
 Print Assumptions C05_expected_arrow_refuted.
+
+(* order of the checks in the functions that make two: which one hands its location to the handler.
+   site 0 <-> the call is let through; site 1 <-> the FIRST documented clause is violated (so site 2 <-> only the second) *)
+Theorem C05_check_order :
+  (forall cap d, (static_set_ctor_site cap d = 0%nat <-> static_set_ctor cap d = true) /\ (static_set_ctor_site cap d = 1%nat <-> d < 0)) /\
+  (forall d s, (copy_ptrs_site d s = 0%nat <-> copy_ptrs_guard d s = true) /\ (copy_ptrs_site d s = 1%nat <-> d = false)) /\
+  (forall x y z, (linalg_add_site x y z = 0%nat <-> linalg_add_guard x y z = true) /\ (linalg_add_site x y z = 1%nat <-> ~ pre_same_extents x y)) /\
+  (forall a0 a1 x0 y0, (linalg_mvp_site a0 a1 x0 y0 = 0%nat <-> linalg_mvp_guard a0 a1 x0 y0 = true) /\ (linalg_mvp_site a0 a1 x0 y0 = 1%nat <-> a1 <> x0)) /\
+  (forall str pos n zero one, is_size_t pos ->
+     (bitset_str_site str pos n zero one = 0%nat <-> bitset_str_guard str pos n zero one = true) /\
+     (bitset_str_site str pos n zero one = 1%nat <-> pos > slen str)) /\
+  (forall n off c, is_size_t off ->
+     (span_subspan_site n off c = 0%nat <-> span_subspan n off c = true) /\ (span_subspan_site n off c = 1%nat <-> off > n)).
+Proof.
+  exact (conj static_set_ctor_site_spec (conj copy_ptrs_site_spec (conj linalg_add_site_spec (conj linalg_mvp_site_spec
+          (conj bitset_str_site_spec span_subspan_site_spec))))).
+Qed.
+Print Assumptions C05_check_order.
 
 Example C05_more_nonvacuous :
   static_set_ctor 4 4 = true /\ static_set_ctor 4 5 = false /\ static_set_ctor 4 (-1) = false /\
